@@ -11,7 +11,7 @@ import (
 func init() {
 	register(&Property{
 		ID: "C18", Level: "fault_enumeration", Builds: []string{"plain", "checkptr", "race"}, RlimitAS: 6 << 30,
-		Rule:        "cases = roaring64 bitmaps from generated histories (several buckets incl. 0 and 0xFFFFFFFF, empty bitmap) serialized with WriteTo/ToBytes/MarshalBinary/ToBase64 and read back through ReadFrom (plain, chunked 1-7 bytes, sentinel tail), FromUnsafeBytes, UnmarshalBinary, FromBase64 into fresh and reused receivers: Equal, byte counts (GetSerializedSizeInBytes = len = n written = n read), exact consumption, Validate on the original and on every round trip, an independent parse of the 64-bit layout (count, key, embedded 32-bit portable stream), and a failing writer at every offset. FAULT ENUMERATION: ALL proper prefixes of streams <= 4 KiB (sampled above) and corruptions of the bucket count (+1, x2, 2^31, 2^32, 2^40, 2^50, 2^62, 2^63, 2^64-1), of keys (swap, duplicate) and of the inner cookies/sizes/fields (the C10 portable mutators applied to an embedded stream) are fed to all four decoders: each must return an error or a bitmap - a panic, or the death of the worker process (address space limited to 6 GiB so that an attacker-sized allocation is a fast attributable failure) is a violation. Non-trivial: corrupted/truncated or non-empty input; distinct = hash of the bytes. Race build: independent bitmaps on independent goroutines (4-32 goroutines, GOMAXPROCS 1-16; every writer through a writer that yields inside Write, every decoder through a reader that yields inside Read, private mutations in between) must neither race inside the library nor influence each other (each goroutine checks its own model, an independent decoder and byte equality of all writers).",
+		Rule:        "cases = roaring64 bitmaps from generated histories (several buckets incl. 0 and 0xFFFFFFFF, empty bitmap) serialized with WriteTo/ToBytes/MarshalBinary/ToBase64 and read back through ReadFrom (plain, chunked 1-7 bytes, sentinel tail), FromUnsafeBytes, UnmarshalBinary, FromBase64 into fresh and reused receivers: Equal, byte counts (GetSerializedSizeInBytes = len = n written = n read), exact consumption, Validate on the original and on every round trip, an independent parse of the 64-bit layout (count, key, embedded 32-bit portable stream), and a failing writer at every offset. FAULT ENUMERATION: ALL proper prefixes of streams <= 4 KiB (sampled above) and corruptions of the bucket count (+1, x2, 2^31, 2^32, 2^40, 2^50, 2^62, 2^63, 2^64-1), of keys (swap, duplicate) and of the inner cookies/sizes/fields (the C10 portable mutators applied to an embedded stream) are fed to all four decoders: each must return an error or a bitmap - a panic, or the death of the worker process (address space limited to 6 GiB so that an attacker-sized allocation is a fast attributable failure) is a violation. Non-trivial: corrupted/truncated or non-empty input; distinct = hash of the bytes. Race build: independent bitmaps on independent goroutines (4-32 goroutines, GOMAXPROCS 1-16; every writer through a writer that yields inside Write, every decoder through a reader that yields inside Read, private mutations in between) must neither race inside the library nor influence each other (each goroutine checks its own model, an independent decoder and byte equality of all writers). Exhaustive sub-space: every bucket count 0..1500 (thorough 0..12000). The zero-copy decoder is also fed from PROT_NONE-guarded memory (plain build); heap inputs of the checkptr build carry 16 bytes of slack. Second generation of decoded, mutated bitmaps.",
 		Assumptions: []string{"a decoder that returned an error leaves a bitmap that is not used further", "hangs are judged by the parent's watchdog"},
 		Units: []Unit{
 			{Name: "roundtrip64@plain,checkptr", Quick: 1200, Thorough: 60000, Run: c18RoundTrip},
